@@ -211,6 +211,25 @@ def run(rep, tier, seed, keep=False):
                    g.call('len', X), g.call('distinct', X), g.call('enumerate', X), g.call('isList', X), g.call('isDict', X), g.call('any', X)):
             for inp in INPUTS[:6]:
                 add(fn, inp)
+        # stability with distinguishable ties: pairs ordered by their first component only, every direction combination
+        PAIRS = [[[2, 0], [1, 1], [2, 2], [1, 3], [2, 4]], [[1, 0], [1, 1], [1, 2]], [[3, 0], [2, 1], [3, 2], [1, 3], [2, 4], [3, 5]]]
+        k0, k1 = g.idx(X, g.c(0)), g.bn('mod', g.idx(X, g.c(1)), g.c(2))
+        for inp in PAIRS:
+            for fname, conv in forms:
+                for f in ('orderBy', 'orderByDescending'):
+                    add(g.mcall(X, f, k0), inp, conv, 'stable-ties')
+                    for tf in ('thenBy', 'thenByDescending'):
+                        add(g.mcall(g.mcall(X, f, k0), tf, k1), inp, conv, 'stable-ties')
+                        add(g.mcall(g.mcall(X, f, g.c(0)), tf, k0), inp, conv, 'stable-ties')
+                add(g.mcall(X, 'groupBy', k0, g.idx(X, g.c(1))), inp, conv, 'stable-ties')
+                add(g.mcall(X, 'distinct', k0), inp, conv, 'stable-ties')
+        # a memorized one-shot iterator used by two consumers at once behaves like the list it buffers
+        M = g.var('m')
+        for inp in ([0, 1, 2, 3], [1, 2], []):
+            for body in (g.mcall(M, 'zip', M), g.mcall(M, 'join', M, g.bn('<', g.var('1'), g.var('2')), g.lst(g.var('1'), g.var('2'))),
+                         g.mcall(M, 'select', g.bn('+', X, g.mcall(M, 'len'))), g.lst(g.mcall(M, 'sum', g.c(0)), g.mcall(M, 'len')),
+                         g.mcall(M, 'selectMany', M), g.mcall(g.mcall(M, 'skip', g.c(1)), 'zip', M)):
+                add(g.bn('->', g.call('let', m=g.mcall(X, 'memorize')), body), inp, lambda d: (x for x in d), 'memorize-shared')
         # known finding: `+` on two sequences yields a one-shot iterator; accumulate() hands the same iterator out as a result element
         # and keeps it as the accumulator, so later steps see it exhausted
         add(g.mcall(X, 'accumulate', BINS[0]), [[0, 1], [1, 2], [2, 3]], None, 'iterator-valued-accumulator')
